@@ -106,4 +106,18 @@ CLAIMED.update({
   "note": "Atomicity of the three operations is the premise that turns the sequential theorem into a statement about concurrent use; it rests on the mutex (checked by C18's lock-site translator and the race matrix). Expiry is outside the model.", "design_ref": "6 C17",
  },
 })
+CLAIMED.update({
+ "C11": {
+  "engine": "gossiph+CheckGossip",
+  "technique": "Coq: invariants and a ranking function over all topologies / origins / schedules of the gossip model (at most once, never to a listed node, forward only after accept, message bound, termination, reach-all at quiescence); trace-acceptor correspondence on a virtual network of real gossiper objects; quiescence monitors",
+  "text": "C11_at_most_once, C11_never_sent_to_listed, C11_forward_only_after_accept, C11_messages_bounded (<= sum of out-degrees), C11_terminates (deliveries <= initial rank + duplications), C11_reaches_every_node_exactly_once (at quiescence every node reachable along the peer relation has admitted the item exactly once) - for every peer relation with any number of nodes, every origin, every delivery order and duplication. The harness runs real gossipers with stub peers over real ledgers and compares every delivery (admitted?, forward destinations) with the model.",
+  "note": "Model = one item in coq/Model/Gossip.v; the flash window does not expire in the model nor in the runs. Goroutine fan-out of forwards is observed by waiting for the expected number of stub calls (trusted harness glue).", "design_ref": "6 C11",
+ },
+ "C12": {
+  "engine": "gossiph+CheckGossip",
+  "technique": "Coq: a verified entry carries a valid signature by that address over address|this hash (injective), invalid entries are ignored by the handler (so C11 applies to verified sets); kernel-checked flash-poisoning counterexample = known finding; forged entries injected at every relay position of the virtual network",
+  "text": "C12_verified_entry_is_signed, C12_signed_message_injective, C12_invalid_entries_ignored: entries that are unsigned, signed for another item or by another key do not count, so listing a node neither makes it skip processing nor stops others from forwarding to it. C12_flash_poisoning_refuted (KNOWN-FINDING, reproduced on the real handler on every run): the duplicate-suppression memory is marked before verification, so a Byzantine relay that delivers a corrupted copy first makes an honest node with an honest path drop the genuine copies.",
+  "note": "H-sig for the signature facts (premise). The delivery guarantee against Byzantine relays holds for the gossiper-list mechanism only; the handler as written is refuted by flash poisoning.", "design_ref": "6 C12",
+ },
+})
 NOT_YET = {}
